@@ -40,18 +40,22 @@ EMB_INT = [("float64", (1, 0)), ("float32", (1, 0)), ("int32", (1, 0)), ("int64"
 EMB_TOK = [("float64", (1, 0)), ("float32", (1, 0)), ("float64", (3, 7)), ("float32", (50, -100)), ("float64", (15000, -30000))]
 
 
-def kwargs_of(cfg, af=(1, 0)):
+def kwargs_of(cfg, af=(1, 0), as_int=False):
+    """as_int: integral limits / centres / half ranges are passed as Python ints (users write vcenter=128)."""
     a, b = af
     t = cfg["t"]
 
+    def num(v):
+        return int(v) if (as_int and v is not None and float(v).is_integer()) else v
+
     def pos(r):                      # a position (limit, centre) in the embedded unit
         v = rat(r)
-        return None if v is None else a * v + b
+        return None if v is None else num(a * v + b)
     if t == "manual":
         return dict(interval_type="manual", vmin=pos(cfg["lo"]), vmax=pos(cfg["hi"]))
     if t == "centered":
         h = rat(cfg["h2"])
-        return dict(interval_type="centered", vcenter=pos(cfg["c"]), half_range=None if h is None else a * h)
+        return dict(interval_type="centered", vcenter=pos(cfg["c"]), half_range=None if h is None else num(a * h))
     return dict(interval_type="quantile", lower_quantile=rat(cfg["ql"]), upper_quantile=rat(cfg["qu"]))
 
 
@@ -69,7 +73,7 @@ def run_case(arg):
             for x in case["data"]]
     want_u = [rat(o["u"]) for o in case["out"]]
     want_mask = [o["k"] == "masked" for o in case["out"]]
-    kw = kwargs_of(case["cfg"], af)
+    kw = kwargs_of(case["cfg"], af, as_int=bool((idx // len(emb)) % 2))
     tag = f"data={case['data']} as {dtn} {af[0]}*x+{af[1]} cfg={case['cfg']['t']} {kw}"
     shape = (len(vals),) if idx % 3 else ((2, len(vals) // 2) if len(vals) % 2 == 0 else (len(vals), 1))
 
